@@ -119,7 +119,21 @@ func (b *Bounds) Points() func() Point {
 // Polygons returns a rectangle polygon
 // to fulfill the Polygonal interface.
 func (b *Bounds) Polygons() []Polygon {
+	if b.Empty() {
+		// A box without any point (NewBounds() before it is extended)
+		// has no rectangle: its corners are infinite.
+		return nil
+	}
 	return []Polygon{{{b.Min, Point{b.Max.X, b.Min.Y}, b.Max, Point{b.Min.X, b.Max.Y}}}}
+}
+
+// polygon returns the receiver as a polygon, without any ring
+// if the receiver is empty.
+func (b *Bounds) polygon() Polygon {
+	if b.Empty() {
+		return nil
+	}
+	return b.Polygons()[0]
 }
 
 // Intersection returns the Intersection of the receiver with p.
@@ -149,25 +163,25 @@ func (b *Bounds) Intersection(p Polygonal) Polygonal {
 	if !b.Overlaps(bp) {
 		return nil
 	}
-	return b.Polygons()[0].Intersection(p)
+	return b.polygon().Intersection(p)
 }
 
 // Union returns the combination of the receiver and p.
 func (b *Bounds) Union(p Polygonal) Polygonal {
 	// TODO: optimize
-	return b.Polygons()[0].Union(p)
+	return b.polygon().Union(p)
 }
 
 // XOr returns the area(s) occupied by either the receiver or p but not both.
 func (b *Bounds) XOr(p Polygonal) Polygonal {
 	// TODO: optimize
-	return b.Polygons()[0].XOr(p)
+	return b.polygon().XOr(p)
 }
 
 // Difference subtracts p from b.
 func (b *Bounds) Difference(p Polygonal) Polygonal {
 	// TODO: optimize
-	return b.Polygons()[0].Difference(p)
+	return b.polygon().Difference(p)
 }
 
 // Area returns the area of the reciever.
